@@ -1380,7 +1380,12 @@ def width(e, f, m, at=None, depth=0):
                 spec = ''.join(str(c.value) for c in v.format_spec.values if isinstance(c, ast.Constant)) if v.format_spec is not None else ''
                 w = re.match(r'^[<>^=]?[+\- ]?0?(\d+)', spec)
                 if not w:
-                    return None
+                    # `{year}` without a specification inserts the text as it is: its own width, when that is fixed
+                    wv = width(v.value, f, m, at, depth + 1) if not spec and v.conversion == -1 else None
+                    if wv is None:
+                        return None
+                    total += wv
+                    continue
                 total += int(w.group(1))
         return total
     if isinstance(e, ast.Subscript) and isinstance(e.slice, ast.Slice) and e.slice.step is None:
@@ -1651,7 +1656,15 @@ def clock_value_rules(rep, m):
     f = m.functions['set_creation_time']
     o = Out(rep, 'R-CLOCK', f)
     found = False
+    import copy as _copy
     for b in ast.walk(f.node):
+        if isinstance(b, ast.BinOp) and isinstance(b.right, ast.Name) and isinstance(b.left, ast.Name):
+            # `now - midnight` with midnight = now.replace(...): the name stands for its one assignment
+            a_ = _assignments(f.node, b.right.id)
+            if len(a_) == 1 and isinstance(a_[0].value, ast.Call) and getattr(a_[0].value.func, 'attr', '') == 'replace':
+                b2 = _copy.copy(b)
+                b2.right = a_[0].value
+                b = b2
         if isinstance(b, ast.BinOp) and isinstance(b.right, ast.Call) and getattr(b.right.func, 'attr', '') == 'replace' and isinstance(b.left, ast.Name) \
                 and isinstance(b.right.func.value, ast.Name):
             found = True
